@@ -108,6 +108,13 @@ def attrInt (attrs : String) (k : String) : Option Int :=
     | [k', v] => if k' == k then v.toInt? else none
     | _ => none
 
+def attrNats (attrs : String) (k : String) : Option (List Nat) :=
+  if attrs == "-" then none else
+  (attrs.splitOn ",").findSome? fun kv =>
+    match kv.splitOn "=" with
+    | [k', v] => if k' == k then (v.splitOn ":").mapM String.toNat? else none
+    | _ => none
+
 def need (o : Option (Option STn)) : Except Err STn :=
   match o with
   | some (some t) => .ok t
@@ -151,16 +158,31 @@ def infer (key attrs : String) (ins : List (Option STn)) : Option String :=
     match ins with
     | [some d, some ax] =>
       match ax.constant with
-      | some (_, [0]) => (unsqueezeScalar d).map fun t => s!"ok {tensorText t}"
-      | _ => none
+      | some (_, idxs) =>
+        match d, idxs with
+        | .scalar _, [0] => (unsqueezeScalar d).map fun t => s!"ok {tensorText t}"
+        | _, _ => d.dims.map fun _ => showRes (unsqueezeShape d idxs)
+      | none => none
     | _ => none
   | "Squeeze" =>
     match ins with
     | [some d, none] => (squeezeVector d).map fun t => s!"ok {tensorText t}"
     | [some d, some ax] =>
       match ax.constant with
-      | some (false, [0]) => (squeezeVector d).map fun t => s!"ok {tensorText t}"
+      | some (false, idxs) =>
+        match d.dims with
+        | none => none
+        | some ds =>
+          -- axes are resolved first (an out-of-range axis is an error even for the vector case)
+          match mapO (resolveIndex ds.length) idxs, d with
+          | none, _ => some "err:IncorrectRank"
+          | some rs, .vector [e] => if rs == [0] then some s!"ok {tensorText (.scalar e)}" else some (showRes (squeezeShape d idxs))
+          | some _, _ => some (showRes (squeezeShape d idxs))
       | _ => none
+    | _ => none
+  | "Transpose" =>
+    match ins with
+    | [some d] => d.dims.map fun _ => showRes (transposeInfer (attrNats attrs "perm") d)
     | _ => none
   | _ => none
 
